@@ -192,6 +192,8 @@ class Unit:
                     text = rw.r4c_rangefrom(text, log)
                 elif r == "R5":
                     text = rw.r5_refpattern(text, log)
+                elif r == "R14":
+                    text = rw.r14_mut_self(text, log)
                 else:
                     raise UnitError("unknown rule %s" % r)
             for a, b, why in self.gsubsts:
@@ -279,6 +281,11 @@ class Unit:
                     if len(hits) == 1:
                         info.setdefault("approx_anchors", []).append("%s: `%s`" % (sid_base, arg))
                 # an anchor without explicit #n must be unique
+                if len(hits) == 0:
+                    # the anchored statement is gone: the hint is dropped (it can only make a proof fail, never pass) and the
+                    # fact is recorded; obligations that verified on the unchanged tree and now fail are still reported
+                    info.setdefault("lost_anchors", []).append("%s: `%s`" % (sid_base, arg))
+                    continue
                 if (nth == 0 and len(hits) != 1) or len(hits) < nth:
                     raise UnitError("%s: anchor `%s` matches %d times" % (sid_base, arg, len(hits)))
                 nth = max(nth, 1)
